@@ -1,6 +1,6 @@
 From Coq Require Import ZArith List Bool Lia.
 From Arsenal Require Import Util.
-From Arsenal Require VamDev VamBlockList Vam VamInv VamInvMeta VamInvStep VamInvThm VamFailProps.
+From Arsenal Require VamDev VamBlockList Vam VamInv VamInvMeta VamInvStep VamInvThm VamFailProps VamAcctThm VamBal VamBalThm VamFailBal.
 From Arsenal Require Import SyncMem SyncMemProofs Budget BudgetProofs.
 Import ListNotations.
 Open Scope Z_scope.
@@ -71,4 +71,28 @@ Theorem C10_allocator_same_regions : forall c v v',
     VamInvMeta.rg_align rg' = VamInvMeta.rg_align rg.
 Proof. exact same_slots_same_regions. Qed.
 Print Assumptions C10_allocator_same_regions.
+(* CreatePool that fails (for any reason, any fault position): invariant kept, no Allocation object changed, the
+   pool is not linked, pool ids and the id counter are as before (every device memory object of the resulting
+   state is owned by a block of a linked list or a dedicated allocation: none is left behind). *)
+Theorem C10_allocator_failed_create_pool_no_trace : forall c v ty flags blockSize minB maxB minAlign f v' code calls,
+  cfg_ok c -> VamInv c v -> step c v (OMkPool ty flags blockSize minB maxB minAlign) f = (v', RErr code, calls) ->
+  VamInv c v' /\ same_slots v v' /\ find_pool (v_pools v') (v_next_uid v) = None /\
+  List.map p_id (v_pools v') = List.map p_id (v_pools v) /\ v_next_pool_id v' = v_next_pool_id v.
+Proof. intros c v ty flags blockSize minB maxB minAlign f v' code calls Hc. exact (failed_create_pool_no_trace c Hc v ty flags blockSize minB maxB minAlign f v' code calls). Qed.
+Print Assumptions C10_allocator_failed_create_pool_no_trace.
+
+(* CreateBuffer / CreateImage that fail (resource creation, allocation, or bind failure at any fault position):
+   the caller's Allocation object stays unallocated and the set of allocated objects is unchanged; stated on
+   reachB (callers obey the map/unmap discipline): the deferred clean-up frees the allocation and only LOGS an
+   error of that free, which can fail only when map references were unbalanced by a rogue Unmap. *)
+Theorem C10_allocator_failed_create_no_trace : forall c v G o f v' code calls,
+  VamAcctThm.cfg_acct c -> VamBalThm.reachB c v G -> op_ok v o -> VamAcctThm.op_dom o ->
+  step c v o f = (v', RErr code, calls) ->
+  match o with
+  | OCreateBuf slot _ _ _ _ _ _ _ _ _ _ | OCreateImg slot _ _ _ _ _ _ _ _ _ _ =>
+      a_allocated (get_alloc v slot) = false -> same_slots v v' /\ VamBalThm.reachB c v' G
+  | _ => True
+  end.
+Proof. intros c v G o f v' code calls Ha. exact (VamFailBal.failed_create_no_trace c Ha v G o f v' code calls). Qed.
+Print Assumptions C10_allocator_failed_create_no_trace.
 End Allocator.
